@@ -36,6 +36,9 @@ type Job struct {
 	ASan    bool            `json:"asan"` // run with the AddressSanitizer build (C code of SQLite instrumented)
 	Timeout int             `json:"timeout_s"`
 	Env     []string        `json:"env,omitempty"`
+	// Wrap is a command prefix the child is started under (e.g. strace with fault injection); "{dir}" in
+	// its elements is replaced by the job's scratch directory.
+	Wrap []string `json:"wrap,omitempty"`
 }
 
 // Result is what a child reports.
@@ -232,7 +235,12 @@ func (r *Runner) RunOne(j *Job) *Result {
 	stderrPath := filepath.Join(j.Dir, "stderr.txt")
 	stderrF, _ := os.Create(stderrPath)
 	// timeout(1) delivers SIGQUIT first so that a goroutine dump lands in stderr, then SIGKILL
-	cmd := exec.Command("timeout", "-s", "QUIT", "-k", "10", fmt.Sprint(j.Timeout), exe, "child", jobFile)
+	args := []string{"-s", "QUIT", "-k", "10", fmt.Sprint(j.Timeout)}
+	for _, w := range j.Wrap {
+		args = append(args, strings.ReplaceAll(w, "{dir}", j.Dir))
+	}
+	args = append(args, exe, "child", jobFile)
+	cmd := exec.Command("timeout", args...)
 	cmd.Env = env
 	cmd.Stdout = stderrF
 	cmd.Stderr = stderrF
